@@ -24,7 +24,10 @@ use crate::{
     error::Details,
     schema::{DecimalSchema, EnumSchema, FixedSchema, Name, RecordSchema, ResolvedSchema, Schema},
     types::Value,
-    util::{safe_collection_len, safe_len, zag_i32, zag_i64},
+    util::{
+        DEFAULT_MAX_ALLOCATION_BYTES, max_allocation_bytes, safe_collection_len, safe_len, zag_i32,
+        zag_i64,
+    },
 };
 use std::{
     borrow::Borrow,
@@ -238,7 +241,12 @@ pub(crate) fn decode_internal<R: Read, S: Borrow<Schema>>(
                 safe_collection_len::<Value>(total)?;
                 // Use reserve_exact as reserve can allocate more than needed defeating the purpose
                 // of the previous check
-                items.reserve_exact(len);
+                items
+                    .try_reserve_exact(len)
+                    .map_err(|_| Details::MemoryAllocation {
+                        desired: total.checked_mul(size_of::<Value>()),
+                        maximum: max_allocation_bytes(DEFAULT_MAX_ALLOCATION_BYTES),
+                    })?;
                 for _ in 0..len {
                     items.push(decode_internal(
                         &inner.items,
@@ -269,7 +277,12 @@ pub(crate) fn decode_internal<R: Read, S: Borrow<Schema>>(
                     .ok_or(Details::IntegerOverflow)?;
                 safe_collection_len::<(String, Value)>(total)?;
 
-                items.reserve(len);
+                items
+                    .try_reserve(len)
+                    .map_err(|_| Details::MemoryAllocation {
+                        desired: total.checked_mul(size_of::<(String, Value)>()),
+                        maximum: max_allocation_bytes(DEFAULT_MAX_ALLOCATION_BYTES),
+                    })?;
                 for _ in 0..len {
                     match decode_internal(&Schema::String, names, enclosing_namespace, reader)? {
                         Value::String(key) => {
